@@ -31,12 +31,20 @@ DescOf(s, o) == DescSeq(s, s.kids[o], 1)
 SameLen(s) == \A o \in Objs : Len(s.path[o]) = Len(s.path["A"])
 \* index map: new index i corresponds to old index Sigma(i) (edge padding at either end / end slicing)
 \* here: checked for steps that keep all lengths equal; old index found by position in the padded old path
-RelSet(s, c, d) == {Rel(s, c, d, i) : i \in 1..Len(s.path[c])}
+RelPath(s, c, d) == [i \in 1..Len(s.path[c]) |-> Rel(s, c, d, i)]
+Clamp(x, lo, hi) == IF x < lo THEN lo ELSE IF x > hi THEN hi ELSE x
+\* the new relative-pose path is the old one edge-padded (pb entries in front, rest behind) or end-sliced
+IsPadSliceImage(new, old) ==
+   LET n == Len(old)  m == Len(new) IN
+   IF m >= n THEN \E pb \in 0..(m-n) : \A i \in 1..m : new[i] = old[Clamp(i - pb, 1, n)]
+   ELSE \A i \in 1..m : new[i] = old[i + (n - m)]
 RelInvStep == (SameLen(st) /\ SameLen(st')) =>
      \A c \in {tgt'} \cup (DescOf(st, tgt') \cap Colls) : \A d \in DescOf(st, c) :
-        \* every relative pose after the step is one that existed before (pad/slice only repeats or drops entries)
-        (\A x \in RelSet(st', c, d) : x \in RelSet(st, c, d))
+        IsPadSliceImage(RelPath(st', c, d), RelPath(st, c, d))
 Prop == [][RelInvStep]_<<st,tgt>>
+KeepLen == [][(SameLen(st) /\ tgt' = "A") => SameLen(st')]_<<st,tgt>>
+SubLen(s, c) == \A d \in DescOf(s, c) : Len(s.path[d]) = Len(s.path[c])
+KeepSubLen == [][SubLen(st, tgt') => SubLen(st', tgt')]_<<st,tgt>>
 Frame == [][\A e \in Objs \ ({tgt'} \cup DescOf(st, tgt')) : st'.path[e] = st.path[e]]_<<st,tgt>>
 Depth == TLCGet("level") <= 3
 ====
